@@ -9,7 +9,7 @@ IDS = {}
 
 def ids(props, table):
     for i, meaning in table.items():
-        IDS[i] = (IDS.get(i, (set(), ''))[0] | set(props.split()), meaning)
+        IDS[i] = (IDS.get(i, (set(), ''))[0] | set(props.split()), meaning or IDS.get(i, (set(), ''))[1])
 
 
 ids('C03', {100: 'pre-state', 201: 'len', 202: 'count', 203: 'multiplicity', 204: 'lookup', 205: 'is_empty', 206: 'capacity', 207: 'value', 208: 'identity', 302: 'ledger', 901: 'double drop', 903: 'dead compare', 904: 'dead yield', 905: 'dead borrow', 211: '', 212: '', 213: '', 214: '', 215: ''})
@@ -51,6 +51,7 @@ ids('C08', {801: 'size_hint does not bracket the number of items still to come',
             806: 'count() differs from stepping', 807: 'is_subset', 808: 'is_superset', 809: 'is_disjoint', 810: 'operator - result'})
 ids('C08 C14', {811: 'operand modified'})
 ids('C14', {820: 'equality differs from extensional equality', 821: 'equality not symmetric', 822: 'equality not reflexive'})
+ids('C11', {711: '', 712: '', 713: '', 714: '', 715: '', 716: '', 720: ''})
 ids('C03', {711: 'adding an absent key to a full container did not panic', 712: 'not exactly one panic entry point was hit',
             713: 'memory outside the container (canary) was overwritten', 714: 'rejected argument not destroyed', 715: 'destruction/creation count off after the rejection',
             716: 'container not usable after the rejected insertion', 717: 'checked_insert on a full map did not return None', 718: 'value replacement on a full container failed',
@@ -93,11 +94,11 @@ MEM_PROPS = {'C02', 'C03', 'C04', 'C05', 'C17', 'C18'}
 FAM = {}
 
 
-def fam(names, group, quick, deep, profiles=('rel',), dprofiles=None, unwind=None, lto=False):
+def fam(names, group, quick, deep, profiles=('rel',), dprofiles=None, unwind=None, lto=False, feats=()):
     for n in names.split():
         FAM[n] = dict(group=group, quick=[tuple(x) if isinstance(x, (list, tuple)) else (x,) for x in quick],
                       deep=[tuple(x) if isinstance(x, (list, tuple)) else (x,) for x in deep],
-                      profiles=profiles, dprofiles=dprofiles or profiles, unwind=unwind, lto=lto)
+                      profiles=profiles, dprofiles=dprofiles or profiles, unwind=unwind, lto=lto, feats=tuple(feats))
 
 
 fam('c01_insert c01_insert_kv', 'g_map', [1, 2, 3], [4, 5], profiles=('rel', 'dbg'))   # N=0: precondition unsatisfiable (overflow is C03)
@@ -144,6 +145,7 @@ fam('c11_variants c11_key_and_modify', 'g_entry', [0, 1, 2, 3], [4, 5], dprofile
 fam('c13_disjoint', 'g_misc', [(0, 0), (2, 0), (0, 2), (1, 1), (2, 1), (1, 2), (2, 2), (3, 2), (2, 3), (3, 3)], [(4, 3), (3, 4), (4, 4), (5, 2)], profiles=('rel', 'dbg'))
 fam('c13_disjoint_tok', 'g_misc', [1, 2, 3], [4, 5])
 fam('c15_clone c15_set_clone c16_from_array c16_set_from_array', 'g_misc', [0, 1, 2, 3], [4, 5], dprofiles=('rel', 'dbg'))
+fam('c15_clone_nodrop', 'g_misc', [1, 2, 3], [4, 5], dprofiles=('rel', 'dbg'))
 fam('c16_from_iter', 'g_misc', [(0, 1), (1, 2), (2, 3), (3, 4), (2, 4)], [(3, 5), (4, 5)], dprofiles=('rel', 'dbg'))
 fam('c16_set_from', 'g_misc', [(1, 2), (2, 3), (3, 4)], [(4, 5)])
 fam('c18_insert_unchecked', 'g_misc', [1, 2, 3], [4, 5], profiles=('rel', 'dbg'))
@@ -157,6 +159,7 @@ fam('c17_set', 'g_liar', [(1, 1), (2, 1), (1, 2)], [(2, 2), (3, 2)])   # (2,2): 
 fam('c06_refs c06_refs_set', 'g_map', [1, 2, 3], [4])
 
 # second/third parameter W selects the rendering ({} / {:?} / {:#?}) or the iterator kind: one per obligation
+fam('c06_fmt_specs', 'g_fmt', [(1, w) for w in range(5)], [(2, w) for w in range(5)], lto=True, unwind=lambda c: 8)
 fam('c19_map c19_set', 'g_fmt', [(n, w) for n in (0, 1, 2) for w in (0, 1, 2)], [(3, w) for w in (0, 1, 2)], lto=True, unwind=lambda c: 8)
 fam('c19_map_iters', 'g_fmt', [(1, w) for w in range(9)], [(n, w) for n in (2, 3) for w in range(9)], lto=True, unwind=lambda c: 8)
 fam('c19_set_iters', 'g_fmt', [(1, 1, w) for w in range(3)], [(1, 1, 3)] + [(n, m, w) for (n, m) in ((2, 1), (2, 2)) for w in range(4)], lto=True, unwind=lambda c: 8)   # w=3 (symmetric_difference): 6 min -> thorough
@@ -173,14 +176,16 @@ PROPS = {
     'C12': dict(fams='c01_insert c01_insert_kv c01_checked_insert c01_lookup c01_remove_entry c03_replace_full c07_insert c07_replace c07_lookup c07_take '
                      'c09_iter c09_set_iter c10_into_iter c10_set_into_iter c11_or c11_variants c11_key_and_modify c16_from_iter c16_from_array'),
     'C06': dict(fams='c06_refs c06_refs_set c01_insert c01_lookup c01_remove c01_retain c01_clear c01_drain_all c09_iter c09_iter_mut c10_into_iter c10_drain '
-                     'c07_insert c07_remove c07_lookup c08_union c08_intersection c08_difference c08_symdiff c08_sub c14_map c14_set c15_clone c16_from_iter c13_disjoint',
+                     'c07_insert c07_remove c07_lookup c08_union c08_intersection c08_difference c08_symdiff c08_sub c14_map c14_set c15_clone c16_from_iter c13_disjoint c06_fmt_specs c19_map c19_set c19_map_iters',
+                fams_std='c06_fmt_specs c19_map c19_set c06_refs c01_insert c01_remove c15_clone c14_map c08_sub c10_drain',
                 gate='nostd_build'),
     'C17': dict(fams='c17_insert c17_remove c17_lookup c17_disjoint c17_set'),
     'C13': dict(fams='c13_disjoint c13_disjoint_tok'),
-    'C15': dict(fams='c15_clone c15_set_clone'),
+    'C15': dict(fams='c15_clone c15_set_clone c15_clone_nodrop'),
     'C16': dict(fams='c16_from_iter c16_from_array c16_set_from c16_set_from_array c07_extend c07_extend_ref'),
     'C18': dict(fams='c18_insert_unchecked c18_disjoint_unchecked'),
-    'C11': dict(fams='c11_or c11_variants c11_key_and_modify'),
+    'C11': dict(fams='c11_or c11_variants c11_key_and_modify '
+                     'c03_or_insert c03_or_insert_with c03_or_insert_with_key c03_vacant_insert c03_or_default'),   # full map: entry insertion must panic exactly like insert
     'C04': dict(fams=C04F1 + ' c04_lookup c04_entry c04_disjoint c04_from_iter c04_set_extend c04_set_algebra'),
     'C05': dict(fams='c05_panics c01_insert c01_insert_kv c01_checked_insert c01_remove c01_remove_entry c01_retain c01_clear c01_drain_all c01_lookup c01_index '
                      'c07_insert c07_replace c07_remove c07_take c07_retain c10_drain '
@@ -198,15 +203,21 @@ PROPS = {
 def obligations(prop, tier):
     obs = []
     deep = tier == 'thorough'
-    for f in PROPS[prop]['fams'].split():
+    _add(obs, PROPS[prop]['fams'].split(), deep, ())
+    # the same families once more with micromap's `std` feature on (C06: "std feature on and off")
+    _add(obs, PROPS[prop].get('fams_std', '').split(), deep, ('mm_std',))
+    return obs
+
+
+def _add(obs, fams, deep, extra_feats):
+    for f in fams:
         d = FAM[f]
         caps = d['quick'] + (d['deep'] if deep else [])
         for prof in (d['dprofiles'] if deep else d['profiles']):
             for c in caps:
                 h = f + ''.join('_%d' % x for x in c)
                 u = d['unwind'](c) if callable(d['unwind']) else d['unwind']
-                obs.append(Ob(h, d['group'], profile=prof, deep=deep, family=f, unwind=u, lto=d['lto']))
-    return obs
+                obs.append(Ob(h, d['group'], profile=prof, deep=deep, family=f, unwind=u, lto=d['lto'], feats=d['feats'] + tuple(extra_feats)))
 
 
 def relevant(prop, fail):
@@ -230,5 +241,5 @@ TIERS = {
     'thorough': dict(timeout=1200, mem_gb=12, max_unwind=30),
 }
 # the formatting harnesses compare 40-byte buffers
-PROP_CAPS = {'C19': dict(max_unwind=44, timeout=600)}
+PROP_CAPS = {'C19': dict(max_unwind=44, timeout=600), 'C06': dict(max_unwind=44, timeout=600)}
 NA = {}
